@@ -9,7 +9,8 @@
 //!     RESET_STREAM, or the end of a finished stream; `received_reset()`;
 //!   * `stop()` / drop of a `RecvStream` with unread data, while the writer still has the stream open (the
 //!     writer's pending `stopped()` completes and it drops its handle), or after the final size is known
-//!     (the recorded finding `c18-stream-credit-announced-only-after-next-packet`);
+//!     (proto `RecvStream::stop` frees the stream at once and has to queue MAX_STREAMS itself: the defect
+//!     `c18-stream-credit-announced-only-after-next-packet`, repaired — see known_findings.txt `fixed:`);
 //!   * `set_max_concurrent_{uni,bi}_streams`;
 //!   * `finish()` / `reset()` / `write()` / drop of a `SendStream` (peer parked in a read);
 //!   * `send_datagram` (peer parked in `read_datagram`).
@@ -18,9 +19,10 @@
 //! within `BOUND` of virtual time WITHOUT any other traffic. When it does not, the script reads the state of
 //! the side that owes the frames (read-only hooks) and names what went wrong:
 //!   frames queued + driver asleep           -> `c18-lost-wakeup-frames-queued-driver-asleep`
-//!   credit freed, MAX_STREAMS never queued  -> the recorded key only for the recorded call site (stop/drop
-//!                                              after the final size is known), else
-//!                                              `c18-stream-credit-not-announced`
+//!   credit freed, MAX_STREAMS never queued  -> `c18-stream-credit-announced-only-after-next-packet` when the call was
+//!                                              stop/drop after the final size was known (the key names the
+//!                                              call site), else `c18-stream-credit-not-announced`
+//! (all of them ordinary violations).
 //!   anything else                           -> `c18-lost-wakeup`
 //! and then pokes the connection (an unrelated MAX_DATA raise) so that the following rounds still run.
 use super::*;
@@ -305,7 +307,7 @@ fn diagnose_credit(ctx: &Ctx, a: usize, ca: &Connection, dir: usize, recorded_ca
         if recorded_call_site {
             Diag { key: KEY_KNOWN_STOP, text: format!("the stream was freed by stop()/drop after its final size was known (stream_recv_freed without queue_max_stream_id): no MAX_STREAMS is queued until another packet arrives ({state})") }
         } else {
-            Diag { key: KEY_CREDIT_NOT_ANNOUNCED, text: format!("the stream was freed but no MAX_STREAMS frame was queued, and the call was NOT the recorded stop()/drop on a stream with known final size ({state})") }
+            Diag { key: KEY_CREDIT_NOT_ANNOUNCED, text: format!("the stream was freed but no MAX_STREAMS frame was queued, and the call was NOT a stop()/drop on a stream with known final size ({state})") }
         }
     } else {
         Diag { key: "c18-lost-wakeup", text: format!("({state})") }
